@@ -694,7 +694,7 @@ where
                 let contract_addr = api.addr_validate(&contract_addr)?;
 
                 // check admin status and update the stored code_id
-                if new_code_id as usize > self.code_data.len() {
+                if !self.code_data.contains_key(&new_code_id) {
                     bail!("Cannot migrate contract to unregistered code id");
                 }
                 let mut data = self.contract_data(storage, &contract_addr)?;
@@ -1010,7 +1010,7 @@ where
         salt: impl Into<Option<Binary>>,
     ) -> AnyResult<Addr> {
         // check if the contract's code with specified code_id exists
-        if code_id as usize > self.code_data.len() {
+        if !self.code_data.contains_key(&code_id) {
             bail!("Cannot init contract with unregistered code id");
         }
 
